@@ -78,6 +78,16 @@ PROPS = {
         "not_covered": ["MultiChainTracker::{step,rhat,within_and_var} and its equality with collect_rhat", "f32 conditioning"],
         "assumptions": ["ToPrimitive::to_f32 is a function of the value", "ndarray contracts of prelude/ndtrack.rs"],
     },
+    "C15": {
+        "units": ["densities"],
+        "design_ref": "DESIGN.md §8 C15",
+        "technique": "Verus deductive proof in real arithmetic (uninterpreted ln with axioms) that the extracted built-in density functions equal their closed forms; sampler/seeding contracts over the functional PRNG model",
+        "level_text": "Unbounded deductive proof (Verus/z3) for every dimension, mean, point and standard deviation: IsotropicGaussian::logp(from,to) is the normalised log-density -sum (to-from)^2/(2 std^2) - (d/2) ln(2 pi std^2) of the distribution its sample draws from (sample returns from_i + std*z_i with z the next standard-normal draws of its own generator), is symmetric (lemma), set_seed determines the stream; IsotropicGaussian as a target is -1/2 sum x^2/std^2; DiffableGaussian2D::new computes the exact inverse covariance, log-determinant and normalising constant -ln(2 pi) - 1/2 ln det.",
+        "level_note": "Real arithmetic; ln is uninterpreted with the stated axioms. The tensor-based evaluations (DiffableGaussian2D batched/single, Rosenbrock forms, Gaussian2D via ndarray dot products) and the gradient plumbing are listed under functions_under_contract only once their units exist; that burn's autodiff value is the analytic gradient, f32-level accuracy, and that Normal draws are Gaussian are not decidable here.",
+        "explanation": "loops after R-zip / R-iterref / R-samplezip with partial-sum invariants",
+        "not_covered": ["true-gradient clause (autodiff correctness is an assumed contract of burn)", "agreement to f32-level accuracy", "Gaussian2D/DiffableGaussian2D/Rosenbrock evaluations until listed", "normality of the draws"],
+        "assumptions": ["Normal::sample(rng) = mean + std_dev * (one StandardNormal draw)", "Zip::next draws from the first iterator before testing the second (one trailing draw)"],
+    },
     "C16": {
         "units": ["categorical"],
         "design_ref": "DESIGN.md §8 C16",
@@ -107,9 +117,10 @@ UNIT_PROPS = {
     "categorical": ["C16"],
     "stats": ["C11", "C12", "C10"],
     "trackers": ["C13"],
+    "densities": ["C15", "C07", "C08"],
 }
 
-HOOK_COMMITS = ["9c48c67", "214a974", "5238a4e", "87ca85d"]
+HOOK_COMMITS = ["9c48c67", "214a974", "5238a4e", "87ca85d", "d757fbc"]
 
 NOT_APPLICABLE = {
     "C06": "distributional / asymptotic statement (law of large numbers with calibrated error): no contract a deductive verifier can discharge expresses it; see DESIGN.md §8 C06",
